@@ -135,6 +135,10 @@ def parse_op(s):
         return (k, int(w[1]), w[2])
     if k == "sw":
         return (k, int(w[1]), None if w[2] == "N" else int(w[2]))
+    if k == "cp":          # cp A p: pickle round trip of the whole pool; cp <o> c: copy.copy of object o
+        if (w[1] == "A") != (w[2] == "p") or w[2] not in ("p", "c"):
+            raise ValueError(s)
+        return (k, None if w[1] == "A" else int(w[1]), w[2])
     raise ValueError(s)
 
 
@@ -149,13 +153,20 @@ class Env:
         self.op_index = 0
         self.calls = []
         self.world = None
+        self.restoring = False     # inside a copy / unpickle: stored values are accepted as they are
 
     def validate(self, vid, obj):
         """Called by the real trait with the real object; returns the very object when the validator does not
         change the value (identity matters)."""
+        if self.restoring:
+            return obj
         tok = self.world.tok(obj)
         self.calls.append((vid, tok))
         r = self.pure(vid, self.op_index, tok)
+        if vid < len(self.specs) and self.specs[vid][0] == "oshift":
+            # an 'original value' trait (Expression, AdaptsTo): validate returns ANOTHER object (the compiled /
+            # adapted form, here x + 50), the trait stores the assigned one (`pure` = what is stored)
+            return self.world.obj(tok + 50)
         return obj if r == tok else self.world.obj(r)
 
     def pure(self, vid, k, x):
@@ -171,7 +182,7 @@ class Env:
             if x < 0:
                 raise TraitError("negative")
             return x
-        if s[0] == "int":
+        if s[0] in ("int", "oshift"):
             return x
         if s[0] == "range":
             if not (int(s[1]) <= x <= int(s[2])):
@@ -220,6 +231,14 @@ class World:
             def validate(self, object, name, value):
                 return env.validate(self.vid, value)
 
+        class VTO(VT):
+            """Stores the original value, like Expression / AdaptsTo (trait_types.py `as_ctrait`)."""
+
+            def as_ctrait(self):
+                ctrait = super().as_ctrait()
+                ctrait.setattr_original_value = True
+                return ctrait
+
         self.pyclasses = []
         for i, c in enumerate(classes):
             ns = {} if c.base is not None else {"d": Instance(HasTraits)}
@@ -236,7 +255,9 @@ class World:
                     # validator specs `int` / `range:lo:hi` make the target a REAL Int / Range trait (C fast
                     # validators, no Python validate); every other spec a custom TraitType
                     spec = env.specs[a.vid] if a.vid < len(env.specs) else ["id"]
-                    if spec[0] == "int":
+                    if spec[0] == "oshift":
+                        ns[a.name] = VTO(a.vid, a.dflt, a.cmp)
+                    elif spec[0] == "int":
                         ns[a.name] = Int(a.dflt, comparison_mode=modes[a.cmp])
                     elif spec[0] == "range":
                         ns[a.name] = Range(int(spec[1]), int(spec[2]), value=a.dflt, comparison_mode=modes[a.cmp])
@@ -247,22 +268,54 @@ class World:
                 else:
                     ns[a.name] = PrototypedFrom("d", prefix=a.raw)
             bases = (HasTraits,) if c.base is None else (self.pyclasses[c.base],)
+            # importable under this module's name, so that instances can be pickled (one world at a time)
+            ns["__module__"] = __name__
+            ns["__qualname__"] = "K%d" % i
             self.pyclasses.append(type(HasTraits)("K%d" % i, bases, ns))
+            globals()["K%d" % i] = self.pyclasses[-1]
         self.cls_of = list(objects)
         self.objs = [self.pyclasses[k]() for k in objects]          # may raise: reported as init-err
         self.ids = {id(o): i for i, o in enumerate(self.objs)}
         self.events = []      # on_trait_change
         self.oevents = []     # observe
         self.exceptions = []
-        for i, o in enumerate(self.objs):
-            for a in classes[objects[i]].attrs:
-                o.on_trait_change(self._otc(i), a.name)
-                o.observe(self._obs(i), a.name)
+        self.graveyard = []   # replaced originals are kept alive (ids stay unique, weak references stay valid)
+        for i in range(len(self.objs)):
+            self._attach(i)
+
+    def _attach(self, i):
+        for a in self.spec(i).attrs:
+            self.objs[i].on_trait_change(self._otc(i), a.name)
+            self.objs[i].observe(self._obs(i), a.name)
+
+    def copy_op(self, which, how):
+        """Replace the whole pool by its pickle round trip (`which` None) or object `which` by `copy.copy` of
+        it; the history continues on the copies, which get the same handlers the originals had."""
+        import copy
+        import pickle
+        self.env.restoring = True
+        try:
+            if which is None:
+                new = pickle.loads(pickle.dumps(self.objs, protocol=pickle.HIGHEST_PROTOCOL))
+                todo = range(len(self.objs))
+            else:
+                new = list(self.objs)
+                new[which] = copy.copy(self.objs[which])
+                todo = [which]
+        finally:
+            self.env.restoring = False
+        self.graveyard.append(self.objs)
+        self.objs = new
+        self.ids = {id(o): i for i, o in enumerate(self.objs)}
+        for i in todo:
+            self._attach(i)
 
     def _otc(self, i):
         ev = self.events
 
         def h(obj, name, old, new):
+            if obj is not self.objs[i]:      # an original that was replaced by its copy: no longer in the pool
+                return
             ev.append((i, name, self.tok(old), self.tok(new)))
         return h
 
@@ -270,6 +323,8 @@ class World:
         ev = self.oevents
 
         def h(event):
+            if event.object is not self.objs[i]:
+                return
             ev.append((i, event.name, self.tok(event.old), self.tok(event.new)))
         return h
 
@@ -493,6 +548,9 @@ def random_history(rng, shape, maxops=12, build_first=None):
         elif r < 0.80:
             t = rng.choice([None] + list(range(n))) if rng.random() < 0.5 else _next_obj(objs, o, rng, cls)
             ops.append("sw %d %s" % (o, "N" if t is None else t))
+        elif r < 0.83 and shape not in CMP_SHAPES:
+            # the history continues on a copy: pickle round trip of the whole pool / copy.copy of one object
+            ops.append("cp A p" if rng.random() < 0.5 else "cp %d c" % o)
         elif r < 0.97:
             ops.append("rd %d %s" % (o, rng.choice(nm)))
         else:
@@ -543,13 +601,50 @@ def rejected_history(rng, shape):
         r = rng.random()
         j = rng.randrange(n)
         nm = [b.name for b in cls[objs[j]].attrs]
-        if r < 0.4:
+        if r < 0.15 and shape not in CMP_SHAPES:
+            ops.append("cp A p" if rng.random() < 0.5 else "cp %d c" % j)
+        elif r < 0.4:
             ops.append("st %d %s %d" % (j, rng.choice(nm), rng.choice([0, 3, 7, 9, -1, 12])))
         elif r < 0.6:
             ops.append("dl %d %s" % (j, rng.choice(nm)))
         else:
             ops.append("rd %d %s" % (j, rng.choice(nm)))
     return "dg|%s|%s|%s|%s" % (classes, objects, ",".join(vals), ";".join(ops))
+
+
+def original_value_history(rng, shape):
+    """Target traits of the 'original value' kind (Expression, AdaptsTo: validate returns another object than
+    the one stored): 'a local value of a PrototypedFrom attribute is what a direct assignment to the target
+    trait would store'.  Every assignment uses a value not used before in the history, so the identity
+    pre-filter of setattr_trait (which compares the VALIDATED object, finding F22 of C02) never matters."""
+    classes, objects = SHAPES[shape]
+    cls = parse_classes(classes)
+    objs = [int(x) for x in objects.split(",")]
+    n = len(objs)
+    ops = []
+    for i in reversed(range(n - 1)):
+        t = _next_obj(objs, i, rng, cls)
+        if t is not None and rng.random() < 0.95:
+            ops.append("sw %d %d" % (i, t))
+    fresh = list(range(20, 50))
+    rng.shuffle(fresh)
+    deferring = [(i, a.name) for i in range(n) for a in cls[objs[i]].attrs if a.kind in ("P", "D")]
+    for _ in range(rng.randint(2, 9)):
+        r = rng.random()
+        j = rng.randrange(n)
+        nm = [b.name for b in cls[objs[j]].attrs]
+        if r < 0.35 and deferring:
+            o, a = rng.choice(deferring)
+            ops.append("st %d %s %d" % (o, a, fresh.pop()))
+        elif r < 0.55:
+            ops.append("st %d %s %d" % (j, rng.choice(nm), fresh.pop()))
+        elif r < 0.7:
+            ops.append("dl %d %s" % (j, rng.choice(nm)))
+        elif r < 0.8:
+            ops.append("cp A p" if rng.random() < 0.5 else "cp %d c" % j)
+        else:
+            ops.append("rd %d %s" % (j, rng.choice(nm)))
+    return "dg|%s|%s|oshift,oshift|%s" % (classes, objects, ";".join(ops))
 
 
 def _next_obj(objs, i, rng, cls=None):
